@@ -285,9 +285,24 @@ def binder_obligations(chk, I, flags, clsname, restrict_accept=True, tag=""):
 
 
 # ----------------------------------------------------------------------------- _get_binding
+def find_builder(I):
+    """Qualified name of the function that builds a binding from a signature: the one that consults `_Truth(...)`."""
+    import ast as _ast
+    tree = I.src.module(MOD)
+    for node in tree.body:
+        if isinstance(node, _ast.FunctionDef) and any(
+                isinstance(c, _ast.Call) and _ast.unparse(c.func).endswith("_Truth") for c in _ast.walk(node)):
+            return f"{MOD}.{node.name}"
+    return f"{MOD}._get_binding"
+
+
 def get_binding_obligations(chk, I):
-    """Loop invariant of _get_binding => the class invariant used above, and the class choice."""
-    func = f"{MOD}._get_binding"
+    """Loop invariant of the binding builder => the class invariant used above, and the class choice.
+    The builder is located by role: the module-level function of typelib.binding that consults `_Truth(...)`
+    (`_build_binding` since fix 7195009, `_get_binding` before)."""
+    func = find_builder(I)
+    KEY = f"{MOD}.<binding-builder>"        # ledger key by role: renaming the function is not a change of behaviour
+    chk.functions.add(func)
     I2 = make_interp()
     sigbox = {}
 
@@ -297,6 +312,8 @@ def get_binding_obligations(chk, I):
         for a in sig.axioms:
             path.assume(a)
         sigbox["sig"] = sig
+        if takes_signature:
+            return [cached_signature(I2, path, [], {})], {}, sig
         obj = SV(path.fresh("obj"))
         return [obj], {}, sig
 
@@ -325,6 +342,12 @@ def get_binding_obligations(chk, I):
         sigbox["sigobj"] = o
         return o
 
+    # does the builder receive the signature object itself (its first parameter is read through `.parameters`)?
+    import ast as _ast0
+    _m0, _c0, _n0 = I2.src.find_def(func)
+    _p0 = _n0.args.args[0].arg if _n0.args.args else None
+    takes_signature = any(isinstance(x, _ast0.Attribute) and x.attr == "parameters" and isinstance(x.value, _ast0.Name)
+                          and x.value.id == _p0 for x in _ast0.walk(_n0))
     I2.stubs["typelib.py.inspection.cached_signature"] = Stub(
         "inspection.cached_signature", cached_signature,
         "inspect.signature: parameters ordered PO* PK* VP? KO* VK?, names distinct")
@@ -535,7 +558,7 @@ def get_binding_obligations(chk, I):
     for pi, (path, out, obls, writes, sig) in enumerate(results):
         pid = f"p{pi}"
         for (nm, pc, goal) in obls:
-            chk.add(Ob(func, nm, pid, pc, goal))
+            chk.add(Ob(KEY, nm, pid, pc, goal))
         if out.kind == "end":
             continue
         if out.kind in ("raise", "unsupported"):
@@ -543,7 +566,7 @@ def get_binding_obligations(chk, I):
             for cl in ("loop-preserve:params", "exit::binding-domain", "exit::binding-values",
                        "exit::flags-select-row", "exit::class-is-matrix-row", "exit::startpos", "exit::varpos",
                        "exit::varkwd"):
-                chk.add(Ob(func, cl, pid, path.hyps, z3.BoolVal(False), why))
+                chk.add(Ob(KEY, cl, pid, path.hyps, z3.BoolVal(False), why))
             continue
         tag, clsname, flags, kw = out.value
         hy = path.hyps
@@ -551,27 +574,27 @@ def get_binding_obligations(chk, I):
         # exit: constructor arguments are exactly the class invariant assumed by the binder proofs
         key = path.fresh("key", Val)
         b = kw["binding"]
-        chk.add(Ob(func, "exit::binding-domain", pid, hy, b.has(key) == sig.binding_has(key)))
-        chk.add(Ob(func, "exit::binding-values", pid, hy + [sig.binding_has(key)],
+        chk.add(Ob(KEY, "exit::binding-domain", pid, hy, b.has(key) == sig.binding_has(key)))
+        chk.add(Ob(KEY, "exit::binding-values", pid, hy + [sig.binding_has(key)],
                    to_val(b.get(key)) == sig.binding_get(key)))
         flags_spec = (sig.nPO > 0, sig.nKO > 0, sig.vp, sig.vk, sig.nPK > 0)
-        chk.add(Ob(func, "exit::flags-select-row", pid, hy,
+        chk.add(Ob(KEY, "exit::flags-select-row", pid, hy,
                    z3.And(*[fs == z3.BoolVal(fv) for fs, fv in zip(flags_spec, flags)])))
-        chk.add(Ob(func, "exit::class-is-matrix-row", pid, hy, z3.BoolVal(matrix[flags] == clsname)))
+        chk.add(Ob(KEY, "exit::class-is-matrix-row", pid, hy, z3.BoolVal(matrix[flags] == clsname)))
         sp = kw["startpos"]
         sp_none, sp_val = (z3.BoolVal(True), z3.IntVal(0)) if sp is None else (z3.BoolVal(False), to_int(sp))
-        chk.add(Ob(func, "exit::startpos", pid, hy,
+        chk.add(Ob(KEY, "exit::startpos", pid, hy,
                    z3.And(sp_none == z3.Not(z3.Or(sig.vp, sig.nPO > 0)),
                           z3.Implies(sig.vp, sp_val == sig.iVP),
                           z3.Implies(z3.And(z3.Not(sig.vp), sig.nPO > 0), sp_val == sig.nPO))))
         vn, vv = _opt_parts(kw["varpos"])
-        chk.add(Ob(func, "exit::varpos", pid, hy, z3.And(vn == z3.Not(sig.vp),
+        chk.add(Ob(KEY, "exit::varpos", pid, hy, z3.And(vn == z3.Not(sig.vp),
                                                           z3.Implies(sig.vp, vv == sig.unm(sig.iVP)))))
         kn, kv = _opt_parts(kw["varkwd"])
-        chk.add(Ob(func, "exit::varkwd", pid, hy, z3.And(kn == z3.Not(sig.vk),
+        chk.add(Ob(KEY, "exit::varkwd", pid, hy, z3.And(kn == z3.Not(sig.vk),
                                                           z3.Implies(sig.vk, kv == sig.unm(sig.iVK)))))
     if n_exit == 0:
-        chk.errors.append("_get_binding: no exit path explored")
+        chk.errors.append(f"{func}: no exit path explored")
     chk.notes.append(f"_BINDING_CLS_MATRIX read from: {how}")
     return matrix
 
@@ -664,8 +687,9 @@ def glue_obligations(chk):
 
     for pi, (path, out, obls, writes, cur) in enumerate(I.run_function(func, mk)):
         ok_in, ok_call = routed(cur, cur["callee"], cur["b"], cur["args"], cur["kw"])
-        chk.add(Ob(func, "binder-receives-call-arguments", f"p{pi}", path.hyps, z3.BoolVal(ok_in)))
-        chk.add(Ob(func, "callee-receives-binder-output", f"p{pi}", path.hyps, z3.BoolVal(ok_call)))
+        why = {} if out.kind == "ret" else {"outcome": out.kind, "why": str(out.value if out.kind != "raise" else out.exc.note)[:200]}
+        chk.add(Ob(func, "binder-receives-call-arguments", f"p{pi}", path.hyps, z3.BoolVal(ok_in), dict(why)))
+        chk.add(Ob(func, "callee-receives-binder-output", f"p{pi}", path.hyps, z3.BoolVal(ok_call), dict(why)))
         ret_ok = out.kind == "ret" and isinstance(out.value, SV) and "f_result" in str(out.value.t)
         chk.add(Ob(func, "returns-callee-result", f"p{pi}", path.hyps, z3.BoolVal(bool(ret_ok))))
 
@@ -700,39 +724,132 @@ def glue_obligations(chk):
         cur["obj"] = o
         return [o], {}, cur
 
-    for pi, (path, out, obls, writes, cur) in enumerate(I.run_function(func, mkw)):
+    def then(I, path, w, made):
+        """For a function the returned wrapper is run, on the same path, on an arbitrary call (any number of positional
+        arguments, any keyword mapping - which may carry any name)."""
+        cur = made[2]
+        cur["wrap_result"] = w
+        cur["sets_at_return"] = list(cur.get("sets", []))
+        if isinstance(w, SV):
+            return w
+        cur["binder_of_wrap"] = cur.get("binder")
+        cur["args"], cur["kw"] = sym_call(path)
+        cur.pop("binder_in", None)
+        cur.pop("call", None)
+        cur["wrapper_called"] = True
+        cur["wrapper_result"] = I.call_value(w, [_StarArgs(cur["args"])], {"$starstar": cur["kw"]}, path)
+        return w
+
+    fn = func + ".<locals>.binding_wrapper"
+    wnames = ("binder-receives-call-arguments", "callee-receives-binder-output", "returns-callee-result")
+    for pi, (path, out, obls, writes, cur) in enumerate(I.run_function(func, mkw, then=then)):
         o = cur["obj"]
-        sets = cur.get("sets", [])
-        if out.kind != "ret":
-            chk.add(Ob(func, "returns", f"p{pi}", path.hyps, z3.BoolVal(False)))
+        sets = cur.get("sets_at_return", cur.get("sets", []))
+        w = cur.get("wrap_result")
+        if w is None:
+            chk.add(Ob(func, "returns", f"p{pi}", path.hyps, z3.BoolVal(False), {"outcome": out.kind, "why": str(out.value)[:200]}))
             continue
-        if isinstance(out.value, SV):
+        if isinstance(w, SV):
             ok = (len(sets) == 1 and sets[0][0] is o and sets[0][1] == "__init__")
-            chk.add(Ob(func, "class::returns-class-itself", f"p{pi}", path.hyps + [isclass(o.t)], out.value.t == o.t))
+            chk.add(Ob(func, "class::returns-class-itself", f"p{pi}", path.hyps + [isclass(o.t)], w.t == o.t))
             goal = to_val(sets[0][2]) == wrapped(getinit(o.t)) if ok else z3.BoolVal(False)
             chk.add(Ob(func, "class::init-wrapped", f"p{pi}", path.hyps, goal))
             chk.add(Ob(func, "class::only-on-classes", f"p{pi}", path.hyps, isclass(o.t)))
             continue
-        w = out.value
         chk.add(Ob(func, "function::functools-wraps-of-obj", f"p{pi}", path.hyps,
                    z3.BoolVal(getattr(w, "wraps_of", None) is o)))
         chk.add(Ob(func, "function::not-for-classes", f"p{pi}", path.hyps, z3.Not(isclass(o.t))))
         chk.add(Ob(func, "function::no-attribute-writes", f"p{pi}", path.hyps, z3.BoolVal(not sets)))
-        # the returned wrapper, run on an arbitrary call (same path: straight-line body)
-        binder = cur.get("binder")
-        st["cur"] = cur2 = {}
-        args, kw = sym_call(path)
-        try:
-            res = I.call_value(w, [_StarArgs(args)], {"$starstar": kw}, path)
-        except PyRaise:
-            res = None
-        ok_in, ok_call = routed(cur2, o, binder, args, kw)
-        fn = func + ".<locals>.binding_wrapper"
-        chk.add(Ob(fn, "binder-receives-call-arguments", f"p{pi}", path.hyps, z3.BoolVal(ok_in)))
-        chk.add(Ob(fn, "callee-receives-binder-output", f"p{pi}", path.hyps, z3.BoolVal(ok_call)))
-        chk.add(Ob(fn, "returns-callee-result", f"p{pi}", path.hyps,
-                   z3.BoolVal(isinstance(res, SV) and "f_result" in str(res.t))))
+        # the returned wrapper on an arbitrary call: every path of it (whatever names the keyword mapping carries)
+        if out.kind != "ret":
+            for nm in wnames:
+                chk.add(Ob(fn, nm, f"p{pi}", path.hyps, z3.BoolVal(False), {"outcome": out.kind,
+                                                                            "why": str(out.value if out.kind != "raise" else out.exc.note)[:200]}))
+            continue
+        ok_in, ok_call = routed(cur, o, cur.get("binder_of_wrap"), cur["args"], cur["kw"])
+        res = cur.get("wrapper_result")
+        chk.add(Ob(fn, wnames[0], f"p{pi}", path.hyps, z3.BoolVal(ok_in)))
+        chk.add(Ob(fn, wnames[1], f"p{pi}", path.hyps, z3.BoolVal(ok_call)))
+        chk.add(Ob(fn, wnames[2], f"p{pi}", path.hyps, z3.BoolVal(isinstance(res, SV) and "f_result" in str(res.t))))
     chk.trusted.update(I.assumed_used)
+
+
+def binding_lookup_obligations(chk):
+    """`_get_binding(obj)` (what bind / wrap call): whatever caching is in front of it, the binding returned is the one
+    the builder makes from the signature of *that* callable.  inspection.signature: a callable that is neither a class
+    nor a typing generic gets Python's own inspect.signature of itself; classes get the documented substitutes for
+    TypedDicts and plain tuples only."""
+    import inspect as _inspect
+    from props import uf_world as uw
+    from pyvc.core import BoolS as _B
+    builder = find_builder(make_interp())
+    I = uw.make_interp(raising=False)
+    hashable = z3.Function("hashable", Val, _B)
+    I.stubs[builder] = Stub("binding builder", lambda I, p, a, k: uw.call_uf(I, p, "build", a, k, may_raise=False),
+                            "the binding builder's loop contract (proved above)")
+    for nm in ("cached_signature", "signature"):
+        I.stubs[f"typelib.py.inspection.{nm}"] = Stub(
+            "inspection.signature", lambda I, p, a, k: uw.call_uf(I, p, "isig", a, k, may_raise=False),
+            "inspection.cached_signature is inspection.signature memoised (C12); its contract is proved below")
+    I.stubs["typelib.py.inspection.ishashable"] = Stub("inspection.ishashable", lambda I, p, a, k: SBool(hashable(to_val(a[0]))),
+                                                       "ishashable(obj) <=> hash(obj) works (C17)")
+    I.builtin_models[_inspect.signature] = lambda I, p, a, k: uw.call_uf(I, p, "pysig", a, k, may_raise=False)
+    func = f"{MOD}._get_binding"
+
+    def mk(I, path):
+        obj = path.fresh("obj")
+        # classes and typing generics are hashable, so an unhashable callable gets its plain signature (clause below)
+        path.assume(z3.Implies(z3.Not(hashable(obj)), uw.uf("isig", 1)(obj) == uw.uf("pysig", 1)(obj)))
+        return [SV(obj)], {}, {"obj": obj}
+    for pi, (path, out, obls, writes, cur) in enumerate(I.run_function(func, mk)):
+        goal = z3.BoolVal(False)
+        if out.kind == "ret":
+            goal = to_val(out.value) == uw.uf("build", 1)(uw.uf("isig", 1)(cur["obj"]))
+        chk.add(Ob(func, "the-binding-is-built-from-the-signature-of-the-callable-itself", f"p{pi}", path.hyps, goal,
+                   {"outcome": out.kind, "why": str(out.value)[:160] if out.kind != "ret" else ""}))
+    chk.trusted.update(I.assumed_used)
+
+    # ---- inspection.signature
+    I = uw.make_interp(raising=False)
+    func = "typelib.py.inspection.signature"
+    preds = {n: z3.Function("P_" + n, Val, _B) for n in ("isclass", "isgeneric", "istypeddict", "istupletype", "isnamedtuple")}
+    for n in ("isgeneric", "istypeddict", "istupletype", "isnamedtuple"):
+        I.stubs[f"typelib.py.inspection.{n}"] = Stub(f"inspection.{n}", (lambda n: lambda I, p, a, k: SBool(preds[n](to_val(a[0]))))(n),
+                                                     f"{n}(obj) (C17 contract)")
+    I.builtin_models[_inspect.isclass] = lambda I, p, a, k: SBool(preds["isclass"](to_val(a[0])))
+    I.builtin_models[_inspect.signature] = lambda I, p, a, k: uw.call_uf(I, p, "pysig", a, k, may_raise=False)
+    for n in ("typed_dict_signature", "tuple_signature"):
+        I.stubs[f"typelib.py.inspection.{n}"] = Stub(f"inspection.{n}", (lambda n: lambda I, p, a, k: uw.call_uf(I, p, n, a, k, may_raise=False))(n),
+                                                     f"{n}: the documented substitute signature (C17 ground tables)")
+
+    def mk2(I, path):
+        obj = path.fresh("obj")
+        return [SV(obj)], {}, {"obj": obj}
+    names = ("a-callable-that-is-not-a-class-or-generic-gets-inspect.signature-of-itself",
+             "only-TypedDicts-and-plain-tuples-get-a-substitute-signature")
+    for pi, (path, out, obls, writes, cur) in enumerate(I.run_function(func, mk2)):
+        o = cur["obj"]
+        if out.kind != "ret":
+            for nm in names:
+                chk.add(Ob(func, nm, f"p{pi}", path.hyps, z3.BoolVal(False), {"outcome": out.kind, "why": str(out.value)[:160]}))
+            continue
+        r = to_val(out.value)
+        typeish = z3.Or(preds["isclass"](o), preds["isgeneric"](o))
+        td = z3.And(typeish, preds["istypeddict"](o))
+        tup = z3.And(typeish, z3.Not(preds["istypeddict"](o)), preds["istupletype"](o), z3.Not(preds["isnamedtuple"](o)))
+        chk.add(Ob(func, names[0], f"p{pi}", path.hyps + [z3.Not(typeish)], r == uw.uf("pysig", 1)(o)))
+        chk.add(Ob(func, names[1], f"p{pi}", path.hyps + [typeish],
+                   z3.And(z3.Implies(td, r == uw.uf("typed_dict_signature", 1)(o)), z3.Implies(tup, r == uw.uf("tuple_signature", 1)(o)),
+                          z3.Implies(z3.Not(z3.Or(td, tup)), r == uw.uf("pysig", 1)(o)))))
+    chk.trusted.update(I.assumed_used)
+    # cached_signature is the memoised `signature` (module-level binding, structural)
+    import ast as _ast
+    tree = make_interp().src.module("typelib.py.inspection")
+    ok = any(isinstance(n, _ast.Assign) and len(n.targets) == 1 and isinstance(n.targets[0], _ast.Name)
+             and n.targets[0].id == "cached_signature" and isinstance(n.value, _ast.Call) and len(n.value.args) == 1
+             and _ast.unparse(n.value.func) in ("compat.cache", "functools.cache", "functools.lru_cache(maxsize=None)")
+             and _ast.unparse(n.value.args[0]) == "signature" for n in tree.body)
+    chk.add(Ob("typelib.py.inspection.cached_signature", "is-the-memoised-signature-function", "structural", [], z3.BoolVal(ok)))
 
 
 def bind_obligations(chk):
